@@ -52,7 +52,7 @@ impl R {
     #[verifier::external_body] pub fn powf(&self, power: &R) -> (r: R) ensures r == powf_s(*self, *power) { unimplemented!() }
     #[verifier::external_body] pub fn from_isize(&self, value: isize) -> (r: R) ensures r == from_isize_s(value as int) { unimplemented!() }
     #[verifier::external_body] pub fn from_f64(&self, value: f64) -> (r: R) ensures r == from_f64_s(value) { unimplemented!() }
-    #[verifier::external_body] pub fn to_f64(&self) -> (r: f64) requires narrowing_allowed() ensures r == to_f64_s(*self) { unimplemented!() }
+    #[verifier::external_body] pub fn to_f64(&self) -> (r: f64) requires narrowing_allowed() /* [C19] narrowing to f64 outside the Gamma boundary */ ensures r == to_f64_s(*self) { unimplemented!() }
     // ref_ops::{RefAdd,RefSub,RefMul,RefDiv}: blanket impls forwarding to `&a ⊕ b`
     #[verifier::external_body] pub fn ref_add(&self, rhs: &R) -> (r: R) ensures r == add_s(*self, *rhs) { unimplemented!() }
     #[verifier::external_body] pub fn ref_sub(&self, rhs: &R) -> (r: R) ensures r == sub_s(*self, *rhs) { unimplemented!() }
